@@ -387,3 +387,8 @@ def run(chk):
     chk.guard('C18.L', check_label_scopes, chk)
     chk.guard('C18.O', check_order, chk)
     chk.guard('C18.S', check_unused_scope, chk)
+    # "the jumps that can raise Unknown jump label": what a jump does at run time is the runtime's label lookup (shared with C08)
+    chk.rule('C08.E', 'shared with C08: abstract execution of the statement loop (label lookup: first label of that name in the current list, index 0 included)')
+    chk.rule('C08.L', 'shared with C08: label lookup / cache locality')
+    chk.guard('C08.E', c08.check_step, chk)
+    chk.guard('C08.L', c08.check_labels, chk)
